@@ -683,7 +683,14 @@ fn main() {
 		let first: u64 = args[2].parse().unwrap();
 		let count: u64 = args[3].parse().unwrap();
 		let model = args.get(4).map(|s| s == "model").unwrap_or(false);
+		// optional time budget (seconds): scenarios not started before it elapsed are reported as skipped
+		let budget: Option<u64> = std::env::var("VERIF_DEADLINE_S").ok().and_then(|v| v.parse().ok());
+		let t0 = std::time::Instant::now();
 		for s in first..first + count {
+			if budget.map(|b| t0.elapsed().as_secs() >= b).unwrap_or(false) {
+				println!("R {{\"seed\":{},\"ok\":true,\"skipped\":true}}", s);
+				continue;
+			}
 			println!("{}", run_one(s, model));
 		}
 	} else if args.len() >= 3 && args[1] == "replay" {
